@@ -106,6 +106,8 @@ class Ops(object):
     # ==================================================================================================
     def concrete(self, v, depth=0):
         """True iff v certainly contains no symbolic scalar (so that native execution is exact)"""
+        if isinstance(v, slice):
+            return not (is_sym(v.start) or is_sym(v.stop) or is_sym(v.step))
         if isinstance(v, _ATOMIC):
             return True
         if isinstance(v, (SymInt, SymBool)):
@@ -288,13 +290,14 @@ class Ops(object):
                     # no useful static range: ask the solver whether the path condition bounds the count
                     LIM = 136
                     if self.path.solver.feasible(mk_cmp("lt", LIM, b2i(b)).t) == "unsat":
-                        for k in range(0, LIM + 1):
-                            if k == LIM or self.path.decide(Eq(b2i(b), k)):
-                                b = k
-                                break
+                        b = self.path.pick_value(b, "shift count")
         elif name == "pow":
             if self.path.decide(mk_cmp("lt", b2i(b), 0)):
                 raise Unsupported("negative exponent (float result)")
+            if is_sym(b) and not self.path.concrete:
+                # an exponent that the path condition bounds is enumerated (c ** k is then plain arithmetic)
+                if self.path.solver.feasible(mk_cmp("lt", 136, b2i(b)).t) == "unsat":
+                    b = self.path.pick_value(b, "exponent")
         elif name == "truediv":
             if self.path.decide(Eq(b2i(b), 0)):
                 raise self.pyvc.Raised(ZeroDivisionError("division by zero"))
@@ -1085,6 +1088,8 @@ class Ops(object):
             return self.instantiate(f, args, kwargs)
         if model is not None:
             return model(self, *args, **kwargs)
+        if isinstance(f, types.MethodWrapperType) and f.__name__ in ("__init__", "__new__", "__init_subclass__"):
+            return self.native_call(f, args, kwargs)       # object.__init__ reached through super()
         # bound builtin methods (list.append, dict.get, ...)
         if isinstance(f, (types.BuiltinFunctionType, types.MethodWrapperType)) and getattr(f, "__self__", None) is not None \
                 and not isinstance(f.__self__, types.ModuleType):
